@@ -1004,7 +1004,34 @@ func (fc *FuncCtx) edgePC(fr *Frame, from, to *ssa.BasicBlock) string {
 
 type edgeKey struct{ frame, from, to int }
 
+// initSyncFields: a freshly allocated struct has unlocked mutexes and Once values that have not run.
+func (fc *FuncCtx) initSyncFields(st *State, et types.Type, ref string) {
+	stt, ok := et.Underlying().(*types.Struct)
+	if !ok {
+		return
+	}
+	for i := 0; i < stt.NumFields(); i++ {
+		ft := stt.Field(i).Type()
+		n, ok := ft.(*types.Named)
+		if !ok || n.Obj().Pkg() == nil || n.Obj().Pkg().Path() != "sync" {
+			continue
+		}
+		var key string
+		switch n.Obj().Name() {
+		case "Mutex", "RWMutex":
+			key = "L!O!" + typeKey(et) + "." + stt.Field(i).Name()
+		case "Once":
+			key = "ONCE!O!" + typeKey(et) + "." + stt.Field(i).Name()
+		default:
+			continue
+		}
+		cur := fc.compTerm(st, key, "(Array Int Bool)")
+		fc.setComp(st, key, "(Array Int Bool)", "(store "+cur+" "+ref+" false)")
+	}
+}
+
 func (fc *FuncCtx) zeroInit(st *State, pl PlaceV, et types.Type, ref string) {
+	fc.initSyncFields(st, et, ref)
 	if at, ok := et.Underlying().(*types.Array); ok {
 		// all elements zero
 		fc.zeroElems(st, ref, at.Elem(), "")
